@@ -29,14 +29,37 @@ def one(seed):
         shutil.rmtree(tmp)
     return seed, res
 
-out = json.load(open("/verif/seeded/MATRIX.json")) if FILTER and os.path.exists("/verif/seeded/MATRIX.json") else {}
-with cf.ThreadPoolExecutor(jobs) as ex:
-    for seed, res in ex.map(one, seeds):
-        out[seed] = res
-        own = seed.split("-")[0]
-        caught = [p for p, r in res.items() if isinstance(r, dict) and r.get("exit") == 1]
-        errs = [p for p, r in res.items() if isinstance(r, dict) and r.get("exit") == 2]
-        print(f"{seed}: caught by {caught or '-'}" + (f"; analysis-error in {errs}" if errs else ""), flush=True)
-json.dump(out, open("/verif/seeded/MATRIX.json", "w"), indent=1)
+# mode 'own': the check of the seed's own property only; 'all': every check; 'auto': own first, then every check for the
+# seeds their own check did not report.  Results are merged into the existing matrix and written as they arrive.
+out = json.load(open("/verif/seeded/MATRIX.json")) if os.path.exists("/verif/seeded/MATRIX.json") else {}
+out = {k: v for k, v in out.items() if os.path.isdir(f"/verif/seeded/{k}")}
+
+
+def save():
+    json.dump(out, open("/verif/seeded/MATRIX.json.tmp", "w"), indent=1)
+    os.replace("/verif/seeded/MATRIX.json.tmp", "/verif/seeded/MATRIX.json")
+
+
+passes = [("own", seeds)] if mode in ("own", "auto") else [("all", seeds)]
+if mode == "auto":
+    passes.append(("all", None))
+for pmode, todo in passes:
+    if todo is None:
+        todo = [s for s in seeds if not (isinstance(out.get(s, {}).get(s.split("-")[0]), dict) and out[s][s.split("-")[0]].get("exit") == 1)]
+        print(f"second pass (all checks) for {len(todo)} seeds", flush=True)
+    mode = pmode
+    with cf.ThreadPoolExecutor(jobs) as ex:
+        for n_, (seed, res) in enumerate(ex.map(one, todo)):
+            if pmode == "own" and isinstance(out.get(seed), dict) and "_error" not in res:
+                merged = {k: v for k, v in out[seed].items() if k != "_error"}
+                merged.update(res)
+                res = merged
+            out[seed] = res
+            if n_ % 10 == 9:
+                save()
+            caught = [p for p, r in res.items() if isinstance(r, dict) and r.get("exit") == 1]
+            errs = [p for p, r in res.items() if isinstance(r, dict) and r.get("exit") == 2]
+            print(f"{seed}: caught by {caught or '-'}" + (f"; analysis-error in {errs}" if errs else ""), flush=True)
+save()
 missed = [s for s, r in sorted(out.items()) if not any(isinstance(x, dict) and x.get("exit") == 1 for x in r.values())]
 print("MISSED:", missed)
